@@ -3,7 +3,7 @@
 use serde_json::json;
 
 use crate::{
-    engine::{guard, Ctx, Family, Tier},
+    engine::{show, guard, Ctx, Family, Tier},
     gen,
     types::Fam,
 };
@@ -88,6 +88,48 @@ pub fn check_typed<T: Fam>(ctx: &mut Ctx, text: &str) {
         }
     }
     ctx.tr(|t| t.str(text));
+}
+
+/// byte-buffer targets take their JSON string as raw bytes: the input need not be UTF-8
+pub fn check_typed_bytes<T: serde::de::DeserializeOwned + PartialEq + std::fmt::Debug>(ctx: &mut Ctx, tname: &str, text: &[u8]) {
+    let theirs = serde_json::from_slice::<T>(text);
+    let mine = guard(|| sonic_rs::from_slice::<T>(text));
+    ctx.state();
+    ctx.call();
+    let name = format!("from_slice<{tname}>");
+    match (mine, &theirs) {
+        (Err(p), _) => ctx.violation(&format!("panic/{name}"), json!({"entry": name, "text": show(text), "panic": p})),
+        (Ok(Ok(a)), Ok(b)) => {
+            if &a == b {
+                ctx.outcome("both-ok:equal");
+            } else {
+                ctx.outcome("VIOL:different-value");
+                ctx.violation(&format!("different-value/{name}"), json!({"entry": name, "text": show(text), "sonic": format!("{:?}", a), "serde_json": format!("{:?}", b)}));
+            }
+        }
+        (Ok(Err(_)), Err(_)) => ctx.outcome("both-reject"),
+        (Ok(Ok(a)), Err(e)) => {
+            ctx.outcome("VIOL:sonic-accepts");
+            ctx.violation(&format!("accepts-where-serde_json-rejects/{name}"), json!({"entry": name, "text": show(text), "sonic": format!("{:?}", a), "serde_json_error": first_line(e)}));
+        }
+        (Ok(Err(e)), Ok(b)) => {
+            // serde_json does not validate the string it reads a byte buffer from (raw control
+            // characters, lone surrogate escapes); sonic-rs applies the JSON grammar there too,
+            // as C02 demands: not a disagreement about a well-formed text
+            if crate::refjson::parse_doc(text, crate::refjson::Mode::Lossy).is_err() {
+                ctx.outcome("documented-difference:serde_json-accepts-malformed-string-for-bytes");
+            } else {
+                ctx.outcome("VIOL:sonic-rejects");
+                ctx.violation(&format!("rejects-where-serde_json-accepts/{name}"), json!({"entry": name, "text": show(text), "sonic_error": first_line(&e), "serde_json": format!("{:?}", b)}));
+            }
+        }
+    }
+}
+
+#[derive(serde::Deserialize, PartialEq, Debug)]
+pub struct BufAndText {
+    pub b: serde_bytes::ByteBuf,
+    pub c: String,
 }
 
 /// borrowed targets need the input lifetime
@@ -245,7 +287,7 @@ pub fn families(tier: Tier, _variant: &str) -> Vec<Family> {
     let mut v = vec![];
     {
         let k = T20.len() as u64;
-        let l = if q { 3 } else { 4 };
+        let l = if q { 3 } else { 5 };
         v.push(Family::new("t20-full x all types", gen::seq_count(k, l), move |idx, ctx| {
             let mut seq = vec![];
             gen::nth_seq(k, l, idx, &mut seq);
@@ -304,6 +346,26 @@ pub fn families(tier: Tier, _variant: &str) -> Vec<Family> {
             if serde_json::from_str::<String>(&lit).is_ok() {
                 ctx.nontrivial();
             }
+        }));
+    }
+    // byte-buffer targets: every short B11 body (escapes, raw non-UTF-8 bytes, control bytes) as the
+    // JSON string a byte buffer is read from, alone, followed by another string (state carried to
+    // the next string of the document) and twice in a row
+    {
+        let k = gen::B11.len() as u64;
+        let l = if q { 4 } else { 5 };
+        v.push(Family::new("byte-buffer-targets/b11", gen::seq_count(k, l), move |idx, ctx| {
+            let mut seq = vec![];
+            gen::nth_seq(k, l, idx, &mut seq);
+            let mut body = vec![];
+            gen::concat(gen::B11, &seq, &mut body);
+            let cat = |parts: &[&[u8]]| parts.concat();
+            check_typed_bytes::<crate::types::Bytes1>(ctx, "struct{serde_bytes}", &cat(&[b"{\"b\":\"", &body, b"\"}"]));
+            check_typed_bytes::<(serde_bytes::ByteBuf, String)>(ctx, "(ByteBuf,String)", &cat(&[b"[\"", &body, b"\",\"ok\\n\"]"]));
+            check_typed_bytes::<Vec<serde_bytes::ByteBuf>>(ctx, "Vec<ByteBuf>", &cat(&[b"[\"", &body, b"\",\"", &body, b"\"]"]));
+            check_typed_bytes::<BufAndText>(ctx, "struct{b:ByteBuf,c:String}", &cat(&[b"{\"b\":\"", &body, b"\",\"c\":\"t\\tt\"}"]));
+            check_typed_bytes::<(String, serde_bytes::ByteBuf, String)>(ctx, "(String,ByteBuf,String)", &cat(&[b"[\"a\\tb\",\"", &body, b"\",\"z\"]"]));
+            ctx.nontrivial();
         }));
     }
     // numbers: the N10 space into every numeric type is C07; here quoted numbers as map keys
